@@ -21,7 +21,7 @@ for pid in props:
         "evidence_file": "/verif/evidence/%s.json" % pid,
         "replay_cmd_template": "/venv/bin/python -m gsv replay {path}",
         "engine": "gsv",
-        "level_claimed": {"category": "proof", "text": e["text"], "design_ref": e.get("design_ref", "DESIGN.md section 5 " + pid)},
+        "level_claimed": {"category": "proof", "text": e["text"], "design_ref": e.get("design_ref", "DESIGN.md section 4 (" + pid + ")")},
         "level_note": e["note"],
         "technique": e["technique"],
     })
